@@ -293,6 +293,9 @@ def replay(path) -> Outcome:
         bounded.load_all()
         import_repo()
         chk = bounded.CHECKS[body["where"]]
-        msg = chk.run(inputs)
+        try:
+            msg = chk.run(inputs)
+        except Exception:
+            msg = "exception: " + traceback.format_exc()[-800:]
         return Outcome("ok") if msg is None else Outcome("fail", chk.name, msg)
     return Outcome("ok", detail="nothing to execute: proof-obligation record")
